@@ -41,7 +41,7 @@ CLAIMS = {
     "C04": _c("exploration",
               "Pipeline.tla models Compile/Eval/Run as a machine over stages with the three recover boundaries of the code "
               "and checks NoEscape on every sensible combination of options, expression class and run-time environment "
-              "(54,560 configurations); each configuration is instantiated with concrete options, sources and environment "
+              "(56,226 configurations); each configuration is instantiated with concrete options, sources and environment "
               "values and executed, and every text of the lexical class alphabets, every single-fault ill-typed program "
               "and every rejected token sequence is pushed through Parse, Compile and Eval: each call must return exactly "
               "one of result and error, never panic, never hang. Exploration level: the quantifier over all byte strings is "
